@@ -389,12 +389,16 @@ func main() {
 		c.Finish()
 	}
 	if *mode == "firstops" {
-		if *propID != "C14" {
+		if *propID != "C14" && *propID != "C13" {
 			firstOps(c)
 		}
 		switch *propID {
 		case "C18":
 			firstGen(c, nil)
+		case "C13": // hashing to fields and curves
+			firstGen(c, func(name string) bool {
+				return strings.Contains(name, "HashTo") || strings.Contains(name, "MapTo") || strings.Contains(name, "EncodeTo") || strings.HasSuffix(name, ".Hash")
+			})
 		case "C14": // the hash entry points only
 			firstGen(c, func(name string) bool {
 				return strings.Contains(name, "mimc") || strings.Contains(name, "poseidon2") || strings.Contains(name, "pedersen-hash")
